@@ -60,6 +60,8 @@ def plan(tier, seed):
                 continue
             if mat == "LinearElastic" and fk != "3d":
                 continue
+            if mat == "mixed-ThreeField" and mk in ("tetra", "triangle"):
+                continue  # no dual region is defined for the linear simplex templates
             for extra in (EXTRA if (mk == "hexahedron" or not quick) else ["none"]):
                 if extra in ("pressure", "mpc") and mk not in ("hexahedron", "quad", "quad8"):
                     continue
